@@ -74,12 +74,27 @@ def mirror_table(rep, F, fn, sink_pat, rule='R-SIGN'):
                 continue
             ctxarg = TB.deref(TB.reduce_option(F, sinks[0][2][-1]))
             want_mode = DIRECTED_MIRROR.get(mode) if sign == 'Minus' else None
+            ctxp = T('param', R.ctx_param_index(fn))
+
+            def mode_of(a):
+                """the rounding mode a context term carries on this path: ctx -> the caller's mode; with_rounding_mode(ctx, M) -> M,
+                where M may be a literal variant or the caller's own mode (rounding_mode(ctx)) handed back"""
+                a = TB.deref(a)
+                if a == ctxp:
+                    return mode
+                if TB.is_call(a, r'Context::with_rounding_mode$') and TB.deref(a[2][0]) == ctxp:
+                    mm = TB.deref(a[2][1])
+                    if mm[0] == 'adt' and str(mm[1]).endswith('RoundingMode') and not mm[3]:
+                        return mm[2]
+                    if mm == TB.deref(mode_t) or (TB.is_call(mm, r'Context::rounding_mode$') and TB.deref(mm[2][0]) == ctxp):
+                        return mode
+                return None
+            got_mode = mode_of(ctxarg)
             if want_mode is None:
-                ok = ctxarg == T('param', R.ctx_param_index(fn))
-                want = 'the caller\'s context unchanged'
+                ok = got_mode == mode
+                want = 'the caller\'s context (mode %s) unchanged' % mode
             else:
-                ok = TB.is_call(ctxarg, r'Context::with_rounding_mode$') and TB.deref(ctxarg[2][0]) == T('param', R.ctx_param_index(fn)) \
-                    and TB.deref(ctxarg[2][1]) == T('adt', 'rounding::RoundingMode', want_mode, ())
+                ok = got_mode == want_mode
                 want = 'the context with mode %s' % want_mode
             if not ok:
                 bad.append(((sign, mode), 'rounding routine receives %s; must receive %s' % (TB.show(ctxarg)[:80], want)))
